@@ -588,7 +588,7 @@ func stripOAIGen(opts *FlattenOpts) (bool, error) {
 		debugLog("newRefs[%s]: isOAIGen: %t, resolved: %t, name: %s, path:%s, #parents: %d, parents: %v,  ref: %s",
 			k, r.isOAIGen, r.resolved, r.newName, r.path, len(r.parents), r.parents, r.schema.Ref.String())
 
-		if !r.isOAIGen || len(r.parents) == 0 || refersToItself(r) {
+		if !r.isOAIGen || len(r.parents) == 0 || refersToItself(r) || isRecursiveNewRef(opts, r) {
 			continue
 		}
 
@@ -614,6 +614,55 @@ func refersToItself(r *newRef) bool {
 		if parent == r.path || strings.HasPrefix(parent, r.path+"/") {
 			return true
 		}
+	}
+
+	return false
+}
+
+// isRecursiveNewRef tells whether a new definition refers to itself through other new definitions
+// (e.g. mutually recursive imported schemas).
+//
+// Inlining such definitions into one another would build a schema which contains itself: they remain named definitions.
+func isRecursiveNewRef(opts *FlattenOpts, r *newRef) bool {
+	// referers[x] lists the new definitions inside which a referer of x lies
+	referers := func(x *newRef) []*newRef {
+		var result []*newRef
+		if x == nil {
+			return result
+		}
+
+		for _, other := range opts.flattenContext.newRefs {
+			if other == nil || !other.isOAIGen {
+				continue
+			}
+
+			for _, parent := range x.parents {
+				if parent == other.path || strings.HasPrefix(parent, other.path+"/") {
+					result = append(result, other)
+
+					break
+				}
+			}
+		}
+
+		return result
+	}
+
+	visited := map[*newRef]bool{}
+	pending := referers(r)
+	for len(pending) > 0 {
+		current := pending[len(pending)-1]
+		pending = pending[:len(pending)-1]
+		if current == r {
+			return true
+		}
+
+		if visited[current] {
+			continue
+		}
+
+		visited[current] = true
+		pending = append(pending, referers(current)...)
 	}
 
 	return false
